@@ -18,7 +18,7 @@ pub fn def() -> PropDef {
     gen,
     check,
     panic_policy: PanicPolicy::Count,
-    rule: "random source trees incl. multi-byte text and invalid UTF-8 buffers; the five views are compared with each other and with the byte/text model of the spec; to_writer is run against a writer that accepts k bytes (also in short writes) and then fails, for every k <= len (thorough) / <=12 sampled k (quick); non-trivial = a composite tree with >= 2 leaves, non-empty text and >= 1 injected writer fault; distinct = spec fingerprint",
+    rule: "random source trees incl. multi-byte text and invalid UTF-8 buffers; the five views are taken in a random order, again in reverse order and on a clone, compared with each other and with the byte/text model of the spec; to_writer is run against a writer that accepts k bytes (also in short writes) and then fails, for every k <= len (thorough) / <=12 sampled k (quick); non-trivial = a composite tree with >= 2 leaves, non-empty text and >= 1 injected writer fault; distinct = spec fingerprint",
     cases: |t| match t {
       Tier::Quick => 150_000,
       Tier::Thorough => 1_500_000,
@@ -68,41 +68,75 @@ impl Write for FaultyWriter {
 fn check(case: &Value, obs: &mut Obs) {
   let spec = super::spec_of(case);
   let src = build_box(&spec);
-  let source = src.source().to_string();
-  let rope = src.rope().to_string();
-  let buffer = src.buffer().to_vec();
-  let size = src.size();
-  let mut w = Vec::new();
-  let wres = src.to_writer(&mut w);
-  obs.count("trees", 1);
-  if rope != source {
-    obs.fail("rope_vs_source", format!("rope() renders {rope:?}, source() is {source:?}"));
-  }
-  if size != buffer.len() {
-    obs.fail("size_vs_buffer", format!("size() = {size}, buffer().len() = {}", buffer.len()));
-  }
-  if wres.is_err() || w != buffer {
-    obs.fail(
-      "to_writer_vs_buffer",
-      format!("to_writer wrote {:?} ({:?}), buffer() is {:?}", String::from_utf8_lossy(&w), wres.is_err(), String::from_utf8_lossy(&buffer)),
-    );
-  }
-  if spec.is_all_utf8() {
-    if buffer != source.as_bytes() {
-      obs.fail("buffer_vs_source_utf8", format!("all leaves UTF-8 but buffer() {:?} != source() {:?}", String::from_utf8_lossy(&buffer), source));
+  // the five views are taken in a random order (lazily decoded / cached
+  // representations make the first view special), then all again in the
+  // reverse order, and finally on a clone: every round must agree with the first
+  let mut order: Vec<u8> = vec![0, 1, 2, 3, 4];
+  {
+    let mut r = Rng::new(case["fault_seed"].as_u64().unwrap_or(0) ^ 0x5eed);
+    for i in (1..order.len()).rev() {
+      order.swap(i, r.below(i + 1));
     }
-  } else {
-    obs.class("invalid_utf8_leaf");
   }
-  // against the spec model (exact bytes given; lossy decoding; concatenation in order)
+  type Views = (String, String, Vec<u8>, usize, Vec<u8>, bool);
+  let take = |s: &rspack_sources::BoxSource, order: &[u8]| -> Views {
+    let mut v: Views = Default::default();
+    for k in order {
+      match k {
+        0 => v.0 = s.source().to_string(),
+        1 => v.1 = s.rope().to_string(),
+        2 => v.2 = s.buffer().to_vec(),
+        3 => v.3 = s.size(),
+        _ => {
+          let mut w = Vec::new();
+          v.5 = s.to_writer(&mut w).is_err();
+          v.4 = w;
+        }
+      }
+    }
+    v
+  };
+  let first = take(&src, &order);
+  let rev: Vec<u8> = order.iter().rev().copied().collect();
+  let second = take(&src, &rev);
+  let cl: rspack_sources::BoxSource = rspack_sources::BoxSource::from(dyn_clone::clone_box(&*src));
+  let third = take(&cl, &order);
+  obs.count("view_rounds", 3);
+  obs.count("trees", 1);
   let mb = spec.model_bytes();
   let mt = spec.model_text();
-  if buffer != mb {
-    obs.fail("buffer_vs_model", format!("buffer() {:?} != model bytes {:?}", buffer, mb));
+  let all_utf8 = spec.is_all_utf8();
+  if !all_utf8 {
+    obs.class("invalid_utf8_leaf");
   }
-  if source != mt {
-    obs.fail("source_vs_model", format!("source() {source:?} != model text {mt:?}"));
+  for (who, (source, rope, buffer, size, w, werr)) in
+    [("object", &first), ("object asked again in reverse order", &second), ("clone", &third)]
+  {
+    let who = format!("{who} (view order {order:?})");
+    if rope != source {
+      obs.fail("rope_vs_source", format!("{who}: rope() renders {rope:?}, source() is {source:?}"));
+    }
+    if *size != buffer.len() {
+      obs.fail("size_vs_buffer", format!("{who}: size() = {size}, buffer().len() = {}", buffer.len()));
+    }
+    if *werr || w != buffer {
+      obs.fail(
+        "to_writer_vs_buffer",
+        format!("{who}: to_writer wrote {:?} ({:?}), buffer() is {:?}", String::from_utf8_lossy(w), werr, String::from_utf8_lossy(buffer)),
+      );
+    }
+    if all_utf8 && buffer != source.as_bytes() {
+      obs.fail("buffer_vs_source_utf8", format!("{who}: all leaves UTF-8 but buffer() {:?} != source() {:?}", String::from_utf8_lossy(buffer), source));
+    }
+    // against the spec model (exact bytes given; lossy decoding; concatenation in order)
+    if *buffer != mb {
+      obs.fail("buffer_vs_model", format!("{who}: buffer() {:?} != model bytes {:?}", buffer, mb));
+    }
+    if *source != mt {
+      obs.fail("source_vs_model", format!("{who}: source() {source:?} != model text {mt:?}"));
+    }
   }
+  let buffer = first.2;
   // fault injection
   let len = buffer.len();
   let all_k = case["all_k"].as_bool().unwrap_or(false);
